@@ -18,6 +18,7 @@ limitations under the License.
 
 #include <algorithm>
 #include <cmath>
+#include <cstdlib>
 #include <cstring>
 #include <iomanip>
 #include <limits>
@@ -67,7 +68,15 @@ bool stringToDouble(const std::string &in, double &out)
     try {
         out = std::stod(in);
     } catch (std::out_of_range &) {
-        return false;
+        // std::stod() also reports a subnormal result as out of range, although it is a value of the double type
+        // (and one that is written out when printing a model).
+        auto value = std::strtod(in.c_str(), nullptr);
+
+        if (!std::isfinite(value) || (value == 0.0)) {
+            return false;
+        }
+
+        out = value;
     }
 
     return true;
